@@ -94,19 +94,23 @@ Definition spec_data (e : entity) (cs : list component) : Prop :=
    carrying the prefix SCREAMING_SNAKE(entity)_STATUS_ *)
 (* [n0]: the number the first status declares (0 = none): a first status ending in UNSPECIFIED that
    declares no number IS the zero value; declared numbers do not otherwise influence the numbering *)
-Definition declared_after_zero_n (l : list bytes) (n0 : N) : list bytes :=
+(* a first option that spells the zero value itself: the name of its enum value - the option, with the
+   prefix put in front unless it carries it already - is <PREFIX>UNSPECIFIED, i.e. the option is written
+   UNSPECIFIED or <PREFIX>UNSPECIFIED (fix a65e1f2: before, any first option ENDING in UNSPECIFIED) *)
+Definition sp_explicit_zero (prefix s : bytes) : bool :=
+  bytes_eqb (if has_prefix prefix s then s else prefix ++ s) (prefix ++ bs "UNSPECIFIED").
+Definition declared_after_zero_n (prefix : bytes) (l : list bytes) (n0 : N) : list bytes :=
   match l with
-  | s :: r => if has_suffix (bs "UNSPECIFIED") s && (n0 =? 0) then r else l
+  | s :: r => if sp_explicit_zero prefix s && (n0 =? 0) then r else l
   | [] => []
   end.
-Definition declared_after_zero (l : list bytes) : list bytes := declared_after_zero_n l 0.
 Definition sp_first_number (e : entity) : N := match e_status_num e with n :: _ => n | [] => 0 end.
 Definition spec_status (e : entity) (cs : list component) : Prop :=
   exists vs, has_enum cs (sp_name e "Status") vs
     /\ (exists z, nth_error vs 0 = Some (z, 0) /\ has_suffix (bs "UNSPECIFIED") z = true
                   /\ has_prefix (sp_status_prefix e) z = true)
-    /\ length vs = S (length (declared_after_zero_n (e_status e) (sp_first_number e)))
-    /\ forall k s, nth_error (declared_after_zero_n (e_status e) (sp_first_number e)) k = Some s ->
+    /\ length vs = S (length (declared_after_zero_n (sp_status_prefix e) (e_status e) (sp_first_number e)))
+    /\ forall k s, nth_error (declared_after_zero_n (sp_status_prefix e) (e_status e) (sp_first_number e)) k = Some s ->
          exists v, nth_error vs (S k) = Some (v, N.of_nat (S k))
                    /\ has_prefix (sp_status_prefix e) v = true /\ has_suffix s v = true.
 
@@ -241,7 +245,9 @@ Definition C17_spec (e : entity) (cs : list component) : Prop :=
 Definition starts_letter (s : bytes) : bool := match s with c :: _ => is_letter c | [] => false end.
 Definition starts_cap (s : bytes) : bool := match s with c :: _ => is_cap c | [] => false end.
 Definition name_ok (s : bytes) : bool := ident s && starts_letter s.
-Definition type_name_ok (s : bytes) : bool := forallb alnum s && starts_cap s.
+(* an event name: an identifier with an upper-case initial (`Create`, `Do_Thing`, `D2`; a lower-case initial
+   makes the oneof option and the nested message one symbol) *)
+Definition type_name_ok (s : bytes) : bool := ident s && starts_cap s.
 
 (* inline anonymous schemas (field x object { ... } / oneof { ... } / enum { ... }): the type is nested in
    the message under the name ToCamel(field); its own fields / options form a scope of their own; the
@@ -255,7 +261,7 @@ Definition sp_enum_value_name (prefix s : bytes) : bytes := if has_prefix prefix
 Definition sp_inline_enum_values (name : bytes) (opts : list bytes) : list bytes :=
   let prefix := to_screaming_snake name ++ [95] in
   match opts with
-  | s :: _ => if has_suffix (bs "UNSPECIFIED") s then map (sp_enum_value_name prefix) opts
+  | s :: _ => if sp_explicit_zero prefix s then map (sp_enum_value_name prefix) opts
               else (prefix ++ bs "UNSPECIFIED") :: map (sp_enum_value_name prefix) opts
   | [] => [prefix ++ bs "UNSPECIFIED"]
   end.
@@ -392,7 +398,7 @@ Definition colon_params (p : bytes) : list bytes :=
 Definition rel_path_ok (p : bytes) : bool :=
   forallb (fun c => alnum c || (c =? 95) || (c =? 47) || (c =? 58)) p.
 Definition method_wf (e : entity) (m : method) : bool :=
-  type_name_ok (md_name m) && rel_path_ok (md_path m)
+  name_ok (md_name m) && rel_path_ok (md_path m)
   && fields_wf (md_request m) && forallb (ref_ok e) (md_request m)
   && match md_response m with Some r => fields_wf r && forallb (ref_ok e) r | None => true end
   && forallb (fun p => existsb (bytes_eqb p) (map uf_name (md_request m))) (colon_params (md_path m)).
@@ -409,7 +415,7 @@ Definition command_service (e : entity) (c : command) : bytes :=
 Definition sp_value_name (prefix s : bytes) : bytes := if has_prefix prefix s then s else prefix ++ s.
 Definition sp_enum_values_n (prefix : bytes) (opts : list bytes) (n0 : N) : list bytes :=
   match opts with
-  | s :: _ => if has_suffix (bs "UNSPECIFIED") s && (n0 =? 0) then map (sp_value_name prefix) opts
+  | s :: _ => if sp_explicit_zero prefix s && (n0 =? 0) then map (sp_value_name prefix) opts
               else (prefix ++ bs "UNSPECIFIED") :: map (sp_value_name prefix) opts
   | [] => [prefix ++ bs "UNSPECIFIED"]
   end.
@@ -445,7 +451,11 @@ Definition sp_topic_scope (e : entity) : list bytes :=
               (e_summaries e).
 
 Definition in_quantifier (e : entity) : bool :=
-  name_ok (e_name e) && pkg_ok (e_pkg e)
+  (* the options of one enum - the statuses, the options of an enum of the block or of an inline enum -
+     are distinct names for protobuf: their canonical names (enum-name prefix removed, PascalCase, protoc's
+     rule) differ; `Active` next to `ACTIVE` is one name twice (a positioned compile error since fix 4fb405b) *)
+  decl_enums_ok e
+  && name_ok (e_name e) && pkg_ok (e_pkg e)
   && (is_nil (e_base_url e) || (rel_path_ok (e_base_url e) && is_nil (colon_params (e_base_url e))))
   (* 1..n keys of any type *)
   && negb (is_nil (e_keys e)) && fields_wf (map k_def (e_keys e)) && forallb (ref_ok e) (map k_def (e_keys e))
@@ -453,13 +463,13 @@ Definition in_quantifier (e : entity) : bool :=
   && fields_wf (e_data e) && forallb (ref_ok e) (e_data e)
   (* 1..n statuses: identifiers; only the first may be the UNSPECIFIED value *)
   && negb (is_nil (e_status e)) && forallb name_ok (e_status e)
-  && forallb (fun s => negb (has_suffix (bs "UNSPECIFIED") s)) (tl (e_status e))
+  && forallb (fun s => negb (sp_explicit_zero (sp_status_prefix e) s)) (tl (e_status e))
   (* 0..n events: object names (upper-case initial), distinct also as oneof options *)
   && forallb (fun ev => type_name_ok (ev_name ev) && fields_wf (ev_fields ev) && forallb (ref_ok e) (ev_fields ev))
              (e_events e)
   && nodup_bytes (map (fun ev => to_snake (to_lower_camel (ev_name ev))) (e_events e))
   (* 0..n command services, each with distinct method names *)
-  && forallb (fun c => match c_name c with Some n => type_name_ok n | None => true end
+  && forallb (fun c => match c_name c with Some n => name_ok n | None => true end
                        && match c_base c with Some b => rel_path_ok b && is_nil (colon_params b) | None => true end
                        && forallb (method_wf e) (c_methods c)
                        && nodup_bytes (map md_name (c_methods c))) (e_commands e)
@@ -467,8 +477,8 @@ Definition in_quantifier (e : entity) : bool :=
   && forallb (fun s => (is_nil (s_name s) || name_ok (s_name s)) && fields_wf (s_fields s)
                        && forallb (ref_ok e) (s_fields s)) (e_summaries e)
   && nodup_bytes (map s_name (e_summaries e))
-  (* schemas of the block *)
-  && forallb (fun s => type_name_ok (schema_name s) && fields_wf (schema_fields s) && forallb (ref_ok e) (schema_fields s))
+  (* schemas of the block: any identifier is a schema name (`enum level_type`: the compiler keeps it as written) *)
+  && forallb (fun s => name_ok (schema_name s) && fields_wf (schema_fields s) && forallb (ref_ok e) (schema_fields s))
              (e_schemas e)
   (* the type / value / service names of each of the three packages, as documented, are distinct:
      the names the user chooses do not repeat each other or the entity's own component names *)
